@@ -87,6 +87,29 @@ CHECKS['C15'] = ('E4', 'model_checking',
     'Trusted: http.client as independent decoder; for 404/500 only status, framing and closing are judged; 204/304 only with an empty application body.',
     'bounded-exhaustive configuration product decoded by an independent HTTP client implementation', 'DESIGN.md 6/C15')
 NOT_YET = {}
+# later additions to the grammars and oracles (DESIGN.md 10.6); appended to the level text of each check
+ADDED = {
+ 'C01': 'multi-name handlers, a run-time handler in three variants (sole / shared name buckets, re-added after removal), three-level inheritance, fire without flush across structural changes with an exact oracle',
+ 'C02': 'multi-channel fires, stop() with a returned generator, re-firing the event object being handled, batches of 129-5000 events queued before one pass, API defaults left out',
+ 'C03': 'the timed fall-back wait, two managers in one process, a descriptor closed behind Select, *_ctrl configurations (expirable 1/8 s wait as an environment choice, scheduling points focused on the control-pipe protocol, 3 deviations, symmetry reduction)',
+ 'C04': 'zero handlers, nested Values, the event fired twice (sequentially / concurrently), falsy results, BaseException that is no Exception, arguments of the feedback events, two independent managers under all tick interleavings of length 6',
+ 'C05': 'handler-less leaves, call/post edges, a raising side handler, the root fired again after its tree drained, fan-out / chains up to 300 (1000) events, idle time decided by the library (an unbounded idle wait with work pending = never)',
+ 'C06': 'per-instance durations and time-outs, waiters on the same event, falsy results, 12-150 callers in flight, call / wait-by-name mixes with a by-name oracle, idle time decided by the library',
+ 'C07': 'handler caches in the canonical state, (component, parent) named by every announcement, instance-addressed probes, delivery-after-detach clause over a ghost forest replayed on the log, forests of 16 (60)',
+ 'C08': 'stray stop(code) while stopped, work started during fade-out incl. chains of 12 events from a generator stopped handler, stop() on a registered child, every program also with the idle time decided by the library, started/stopped arguments',
+ 'C09': 'Select/Poll/EPoll as idle mechanism, no firing after unregister(), busy-handler clock choice before reset(), default persist, intervals and distances of 1/256 s',
+ 'C10': 'fd number taken over by an unrelated descriptor, hung-up re-registration, hung-up descriptor with unread data, 40 (400) descriptors at once',
+ 'C11': 'text payloads for File, 3 MiB payload, residue-after-close clause, server-wide close with buffered data',
+ 'C12': 'TCP family with RST before / after accept, server-wide close, send+close and send+half-close with exact buffer multiples, 24 (200) connections at once, stray-poller-entry clause, connect arguments',
+ 'C13': 'Content-Length: 0 responses, two interleaved connections to one HTTP component',
+ 'C14': 'two-read deliveries (settled and next-pass) also after the close request, ladders of malformed over-long inputs with a CPU-time stall clause, non-ASCII / surrogate / cookie values, traceback pages on, UNIX-socket server, client gone at once, exception-unanswered clause, event-storm guard',
+ 'C15': 'short-read files, non-streamed iterables, statuses 302/303/403, Controller method behind the Dispatcher as second entry point',
+ 'C16': 'a 20000-byte file, two requests on one keep-alive connection',
+ 'C18': 'arguments ending in CR/LF, white space at either end, tabs, every shape of prefix',
+ 'C19': 'notification / call mixes, firewall x payload shapes, 30 (120) events in flight, lone surrogates',
+ 'C20': 'requests without Host header, a second check on the same request object, session requests sharing one connection',
+}
+
 def main():
     props = [json.loads(l) for l in open(os.path.join(HERE, 'properties.jsonl'))]
     checks = []
@@ -95,6 +118,9 @@ def main():
         pid = p['id']
         if pid in CHECKS:
             eng, cat, text, note, tech, ref = CHECKS[pid]
+            if pid in ADDED:
+                text += ' Added later (DESIGN.md 10.6; bounds in brackets are the thorough tier): ' + ADDED[pid] + '.'
+                ref += ', 10.6'
             checks.append({
                 'property_id': pid,
                 'quick_cmd': '%s %s --tier quick' % (PY, pid),
